@@ -96,11 +96,18 @@ func Start(t *testing.T, id, level string) *Run {
 		}
 	}
 	r.deadline = r.start.Add(time.Duration(budget) * time.Second)
-	b, err := os.ReadFile(filepath.Join(VerifDir(), "known_findings.json"))
-	if err == nil {
+	files := []string{filepath.Join(VerifDir(), "known_findings.json")}
+	if x := os.Getenv("VERIF_EXTRA_FINDINGS"); x != "" {
+		files = append(files, x) // development aid: proposed findings not yet merged
+	}
+	for _, fn := range files {
+		b, err := os.ReadFile(fn)
+		if err != nil {
+			continue
+		}
 		var ff findingsFile
 		if err := json.Unmarshal(b, &ff); err != nil {
-			t.Fatalf("known_findings.json: %v", err)
+			t.Fatalf("%s: %v", fn, err)
 		}
 		for i := range ff.Findings {
 			f := &ff.Findings[i]
